@@ -272,6 +272,12 @@ func (cluH) Generate(property string, seed uint64, tier string) *Case {
 		if g.IntN(2) == 0 {
 			plan.ErrAt = []int{g.IntN(200)}
 		}
+		// some machines are down from the start (no heartbeat): they still belong to their pod
+		for i := range cfg.Nodes {
+			if g.IntN(4) == 0 {
+				cfg.Nodes[i].HBTTL = 0
+			}
+		}
 	default:
 		conc := false
 		switch property {
@@ -326,6 +332,13 @@ func (cluH) Generate(property string, seed uint64, tier string) *Case {
 				// an operation that walks the list of selected nodes
 				op = genCreate(g, &cfg, property)
 				op.Kind = "rm_image"
+				if g.IntN(2) == 0 {
+					// longer include lists with several repeated names
+					op.Includes = nil
+					for k := 4 + g.IntN(3); k > 0; k-- {
+						op.Includes = append(op.Includes, g.IntN(len(cfg.Nodes)))
+					}
+				}
 			}
 			if property == "C34" {
 				switch g.IntN(11) {
